@@ -73,7 +73,8 @@ def main():
       for i, l in enumerate(lines):
         f = [x.strip() for x in l.split("|")]
         if len(f) > 3 and (f[1], f[2]) in new:
-          lines[i] = new[(f[1], f[2])]
+          lines[i] = new.pop((f[1], f[2]))
+      lines += list(new.values())      # mutants added after the last full audit
       body = [l for l in lines if l.startswith("| C")]
       lines = [("%d mutants, %d killed." % (len(body), sum("| KILLED" in l for l in body))) if l.endswith(" killed.") and " mutants, " in l else l for l in lines]
       open(ap, "w").write("\n".join(lines) + "\n")
